@@ -1,75 +1,18 @@
-import Rspirv.Generic.Name
-import Rspirv.Generated.Spirv
-import Rspirv.Generated.Grammar
+import Driver.Basic
+import Driver.Store
 /-!
 Line-protocol driver: evaluates the Lean model's executable definitions on requests read from stdin,
 one response per line. Built as a `lean_exe` (imports nothing outside core/Std).
 -/
-open Rspirv
-
-def findEnum (nm : String) : Option EnumSpec :=
-  Rspirv.Generated.Spirv.enums.find? (fun E => E.name == nameCode nm)
-def findMask (nm : String) : Option MaskSpec :=
-  Rspirv.Generated.Spirv.masks.find? (fun M => M.name == nameCode nm)
 
 def respond (line : String) : String :=
-  match line.splitOn " " with
-  | ["enum", e, n] =>
-    match findEnum e, n.toNat? with
-    | some E, some k =>
-      match E.fromU32 k with
-      | some d =>
-        -- Debug name: the first declared variant with that discriminant
-        let nm := match E.decl.find? (fun p => p.2 == d) with
-          | some p => nameString p.1
-          | none => "<undeclared>"
-        s!"enum {e} {n} some {d} {nm}"
-      | none => s!"enum {e} {n} none - -"
-    | _, _ => s!"enum {e} {n} unknown-enum - -"
-  | ["str", e, s] =>
-    match findEnum e with
-    | some E =>
-      if !E.hasFromStr then s!"str {e} {s} unknown-enum -" else
-      match E.fromStrName (nameCode s) with
-      | some v => match E.valueOf v with
-        | some d => s!"str {e} {s} some {d}"
-        | none => s!"str {e} {s} some <undeclared>"
-      | none => s!"str {e} {s} none -"
-    | none => s!"str {e} {s} unknown-enum -"
-  | ["alias", e, a] =>
-    match findEnum e with
-    | some E => match lookupNat E.aliases (nameCode a) with
-      | some t => match E.valueOf t with
-        | some d => s!"alias {e} {a} {d}"
-        | none => s!"alias {e} {a} unknown"
-      | none => s!"alias {e} {a} unknown"
-    | none => s!"alias {e} {a} unknown"
-  | ["mask", m, n] =>
-    match findMask m, n.toNat? with
-    | some M, some k => match M.fromBits k with
-      | some v => s!"mask {m} {n} some {v}"
-      | none => s!"mask {m} {n} none -"
-    | _, _ => s!"mask {m} {n} unknown-mask -"
-  | ["maskall", m] =>
-    match findMask m with
-    | some M => s!"maskall {m} {M.allBits}"
-    | none => s!"maskall {m} unknown"
-  | ["maskconst", m, c] =>
-    match findMask m with
-    | some M => match lookupNat M.consts (nameCode c) with
-      | some v => s!"maskconst {m} {c} {v}"
-      | none => s!"maskconst {m} {c} unknown"
-    | none => s!"maskconst {m} {c} unknown"
-  | ["lookup", t, n] =>
-    let tbl := if t == "core" then Rspirv.Generated.Grammar.coreTable
-               else if t == "glsl" then Rspirv.Generated.Grammar.glslTable
-               else Rspirv.Generated.Grammar.openclTable
-    match n.toNat? with
-    | some k => match lookupOpcode tbl k with
-      | some e => s!"lookup {t} {n} some {nameString e.name} {e.opcode}"
-      | none => s!"lookup {t} {n} none"
-    | none => "bad-request"
-  | _ => "bad-request"
+  let ws := line.splitOn " "
+  match respondBasic ws with
+  | some r => r
+  | none =>
+  match respondStore ws with
+  | some r => r
+  | none => "bad-request"
 
 partial def loop (h : IO.FS.Stream) (out : IO.FS.Stream) : IO Unit := do
   let line ← h.getLine
